@@ -442,7 +442,12 @@ func (mr MeshReader) Read(reader io.Reader) (*modeling.Mesh, error) {
 		// Read data
 		scanner := bufio.NewScanner(reader)
 		for i := int64(0); i < vertexElement.Count; i++ {
-			scanner.Scan()
+			if !scanner.Scan() {
+				if err := scanner.Err(); err != nil {
+					return nil, err
+				}
+				return nil, io.ErrUnexpectedEOF
+			}
 
 			text := scanner.Text()
 			if text == "" {
@@ -580,7 +585,12 @@ func readAsciiFaceElement(element Element, scanner *bufio.Scanner) ([]int, []vec
 
 	var i int
 	for i < int(element.Count) {
-		scanner.Scan()
+		if !scanner.Scan() {
+			if err := scanner.Err(); err != nil {
+				return nil, nil, err
+			}
+			return nil, nil, io.ErrUnexpectedEOF
+		}
 		line := scanner.Text()
 
 		if line == "" {
